@@ -2,7 +2,7 @@
    Only statements, each closed by [exact], with its assumptions printed. *)
 From Coq Require Import Bool Arith ZArith String List.
 From CBI Require Import Lib.Res Model.C01 Spec.C01 Model.C04 Model.C15fs Model.C15 Model.C15i
-     Proofs.C15fs Proofs.C15enum Proofs.C15 Proofs.C15i Proofs.C15w Proofs.C15full.
+     Spec.C04 Spec.C15 Proofs.C15fs Proofs.C15enum Proofs.C15 Proofs.C15i Proofs.C15w Proofs.C15full Proofs.C15spec.
 Import ListNotations.
 Local Open Scope string_scope.
 Local Open Scope list_scope.
@@ -138,6 +138,34 @@ Theorem C15_counted_once :
            (iter (remove_links root) is_src link_fuel dirs).
 Proof. exact counted_once_full. Qed.
 Print Assumptions C15_counted_once.
+
+(* ATTRIBUTION = REFERENCE.  The marks finder.find records for the aliased code base are
+   the marks the reference preprocessor of Spec/C04.v (textual inclusion, un-memoised
+   first-match search over exact paths; this is the S the correspondence compares with)
+   records for the canonical configuration on the plain list [cfs] of the tree's
+   regular files - whenever that reference accepts the configuration. *)
+Theorem C15_attribution_is_reference :
+  forall (root : fnode) (tab_a tab_c : ctable) (cfs : fsys)
+         (fuel : nat) (members : list path) (c_a c_c : list (nat * entry)) (ms msS : list mark),
+    wf root ->
+    tab_structured tab_a -> tab_structured tab_c -> fs_structured cfs ->
+    tab_rel root tab_a tab_c (alldirs root) -> alias_cfg2 root tab_a (alldirs root) c_a c_c ->
+    tab_names_ok root tab_c -> canon_cfg root c_c ->
+    (forall p, is_real root p = true -> fs_get cfs p = getf_i root tab_c p) ->
+    Forall (fun fn => In (dirname (rp_i root fn)) (alldirs root)) members ->
+    find_A (rp_i root) (getf_i root tab_a) fuel members c_a = Ok ms ->
+    analyse_S cfs fuel c_c = Ok msS ->
+    ms = msS.
+Proof. exact attribution_is_reference. Qed.
+Print Assumptions C15_attribution_is_reference.
+
+(* ... and such a list exists for every well-formed tree whose root is a directory *)
+Theorem C15_file_list_exists :
+  forall (root : fnode) (tab : ctable), wf root -> getf_i root tab [] = None ->
+    (forall p, fs_get (fsys_of root tab) p = getf_i root tab p) /\
+    (tab_structured tab -> fs_structured (fsys_of root tab)).
+Proof. intros root tab Hwf Hr. split; [apply fs_get_fsys_of; assumption|apply fsys_of_structured]. Qed.
+Print Assumptions C15_file_list_exists.
 
 (* Links add nothing: two trees that differ only in their links count the same files. *)
 Theorem C15_link_adds_nothing :
@@ -366,3 +394,13 @@ Proof.
     vm_compute in E. inversion E; subst. clear E H1 H2. vm_compute. repeat split.
   - vm_compute in E. discriminate.
 Qed.
+
+(* the reference preprocessor accepts the canonical configuration of this instance and records 8 marks *)
+Example C15_reference_nonvacuous :
+  match analyse_S (fsys_of C15_ex2_root C15_ex2_tab_c) 5 C15_ex2_canon_cfg with
+  | Ok msS => List.length msS = 8 /\
+              find_A (rp_i C15_ex2_root) (getf_i C15_ex2_root C15_ex2_tab_a) 5
+                     (iter C15_ex2_root C15_ex_src link_fuel [["cb"]]) C15_ex2_alias_cfg = Ok msS
+  | Err _ => False
+  end.
+Proof. vm_compute. split; reflexivity. Qed.
